@@ -70,7 +70,7 @@ func run(c *lib.Ctx) error {
 	wg.Add(1)
 	go func() {
 		defer wg.Done()
-		r, err := c.TLC("MCGetopt", lib.TLCRun{Dir: dir, Module: "MCGetopt", Workers: c.Pick(2, 4), Timeout: 12 * time.Minute,
+		r, err := c.TLC("MCGetopt", lib.TLCRun{Dir: dir, Module: "MCGetopt", Workers: c.Pick(2, 4), Timeout: 25 * time.Minute,
 			Files: map[string][]byte{"MCGetopt.cfg": []byte(mcfg)}})
 		if err != nil {
 			mErr = err
@@ -122,7 +122,7 @@ func run(c *lib.Ctx) error {
 	c.Set("unspecified_cases_judged", len(us))
 	all := append(us, vc...)
 	c.Logf("judging %d recorded cases (%d unspecified generated, %d random)", len(all), len(us), len(vc))
-	bad, err := lib.Judge(c, "JudgeGetopt", dir, "JudgeGetopt", all, c.Pick(2, 6), 10*time.Minute)
+	bad, err := lib.Judge(c, "JudgeGetopt", dir, "JudgeGetopt", all, c.Pick(2, 6), 25*time.Minute)
 	if err != nil {
 		wg.Wait()
 		return err
